@@ -355,7 +355,7 @@ def install(ctx, mode):
 
 def gen_net(rng, spec):
     shape = rng.choice(['unary', 'unary', 'dups', 'dups', 'random', 'chain', 'diamond', 'consts', 'nary', 'wide'])
-    net = netgen.rand_net(rng, shape=shape, max_in=spec.get('max_in', 5), max_g=spec.get('max_g', 12), max_arity=4,
+    net = netgen.rand_net(rng, shape=shape, max_in=spec.get('max_in', 5), min_in=0 if rng.random() < 0.05 else 1, max_g=spec.get('max_g', 12), max_arity=4,
                           label_style=rng.choice(['plain', 'plain', 'digits', 'odd', 'derived']))
     r = rng.random()
     if r < 0.35:
